@@ -227,8 +227,10 @@ def build(seed, tier, ending, status, mode, g, atc_exit=None, sweep=False):
     elif eid == 'assert_stub_fail':
         stub('assert', 'main', 'pfh_fail')
     elif eid == 'assertion_cannot_be_evaluated':
+        # (`stdout|stderr -from PROGRAM` looks at the output whatever the exit code: a program that merely exits non-zero
+        # is no error there - a variant that said so was a false alarm of this catalogue, found by the thorough tier)
         v = g.choice(['contents no-such-file.txt : is-empty', 'stdout -from % nostart\n  is-empty',
-                      'stdout -transformed-by run % failing-tr\n  is-empty', 'stderr -from % failing-tr\n  is-empty',
+                      'stdout -transformed-by run % failing-tr\n  is-empty', 'exit-code -from % nostart\n  == 0',
                       'dir-contents no-such-dir : is-empty'])
         procs['nostart'] = {'spawn_error': 'ENOENT'}
         procs['failing-tr'] = {'exit': 2, 'stderr': 'tr failed\n'}
@@ -409,6 +411,7 @@ def _fingerprint(plan):
                            for it in case.get(ph, []) if it.get('e')),
             'faults': len(plan['faults']), 'fsfaults': len(plan.get('fsfaults', [])), 'tail': case.get('tail'),
             'pp': plan['procs'].get('pp'), 'resolver_fault': bool(plan.get('resolver_fault')),
+            'aux_procs': {k: plan['procs'][k] for k in ('nostart', 'failing-tr') if k in plan['procs']},
             'atc_exit': plan['procs'].get('atc', {}).get('exit'),
             'atc_spawn_error': plan['procs'].get('atc', {}).get('spawn_error'),
             'act': case.get('act'), 'argv_extra': plan['argv_extra'], 'files': sorted(plan.get('files', {})),
